@@ -1,4 +1,5 @@
 import PysphVerif.Lemmas.ControllerStarve
+import PysphVerif.Lemmas.ControllerFair3
 /-!
 # C18 — the solver controller never loses a command or a wake-up
 
@@ -475,6 +476,13 @@ theorem terminates_under_strong_fairness (ps : List (List Op))
   rw [h4, h5] at hq
   simp only [List.append_nil] at hq
   exact ⟨hq.1, hq.2.2⟩
+
+/-- the fairness hypothesis is satisfiable: every set of well-formed programs
+has a strongly fair schedule (so `terminates_under_strong_fairness` is not
+vacuous) -/
+theorem strongly_fair_schedule_exists (ps : List (List Op))
+    (hwf : ∀ p ∈ ps, WF false p = true) : ∃ σ, StronglyFair ps σ :=
+  strongly_fair_exists hwf
 
 /-- Weak fairness (only *continuously* enabled threads must be scheduled) is
 NOT enough, in the model as with CPython's unfair locks: after thread 1 has
